@@ -196,6 +196,9 @@ func RunC02(c *Ctx, r *Report) {
 	c.fullCompareRules(r, prefix, a)
 	// rule 4: MAC span
 	c.macSpanRules(r, prefix, a, true)
+	// the objects that verify are keyed with the SA's current keys: every derivation rebuilds them (an object
+	// kept from an earlier derivation would go on accepting messages protected under the earlier keys)
+	c.objectKeyBindingRules(r, prefix)
 	// rule 5: key direction
 	c.keyDirectionRules(r, prefix, a)
 
